@@ -203,28 +203,16 @@ pub fn scenarios(prop: &str, tier: &str) -> Vec<Scenario> {
                 }
             }
         }
-        if prop == "C01" {
-            // the only goal sample lies marginally (0.03 L) inside an obstacle: a goal-side root that is
-            // accepted without (or after giving up on) validation lets the goal tree grow outwards
-            let l = crate::refspace::lvs(&b.spec);
-            let s1 = b.goal_samples[1].clone();
-            let far = with_kit!(kit, farthest_state(&b, &s1));
-            let ob = with_kit!(kit, marginal_ball_of(&b, &s1, &far, 2.5 * l, 0.03 * l));
-            for pk in Pk::ALL {
-                let mut sc = b.scenario(b.world_named("goal-sample-marginally-inside", vec![ob.clone()]), b.params(pk, if pk == Pk::Prm { 1.6 } else { 0.6 }, 1.5, 0.0), &format!("C01/{kit}/goal-sample-marginally-inside/{}", pk.name()));
-                sc.goal_samples = vec![s1.clone()];
-                sc.goal_balls = vec![(s1.clone(), 0.01 * l)];
-                out.push(sc);
-            }
+        if prop == "C01" || prop == "C02" {
             // ... and with the setup draw failing as well (the goal tree is empty when solve starts)
             for kind in [0u8, 1] {
                 let w = b.world_named("goal-overlap", vec![b.goal_overlap.clone()]);
-                let mut sc = b.scenario(w, b.params(Pk::Connect, 1.0, 1.5, 0.0), &format!("C02/{kit}/goal-overlap/RRTConnect/goal-sampler-fails-twice/{kind}"));
+                let mut sc = b.scenario(w, b.params(Pk::Connect, 1.0, 1.5, 0.0), &format!("{prop}/{kit}/goal-overlap/RRTConnect/goal-sampler-fails-twice/{kind}"));
                 sc.goal_fail_at = Some((0, kind));
                 sc.goal_fail_from = None;
                 out.push(sc.clone());
                 let mut sc2 = sc;
-                sc2.tag = format!("C02/{kit}/goal-overlap/RRTConnect/goal-sampler-fails-first-two/{kind}");
+                sc2.tag = format!("{prop}/{kit}/goal-overlap/RRTConnect/goal-sampler-fails-first-two/{kind}");
                 sc2.goal_fail_at = None;
                 sc2.goal_fail_from = Some((0, kind));
                 out.push(sc2);
@@ -252,6 +240,23 @@ pub fn scenarios(prop: &str, tier: &str) -> Vec<Scenario> {
                     sc.spec = spec.clone();
                     sc.start = start.clone();
                     out.push(sc);
+                }
+            }
+        }
+        // the start handed over in a NON-CANONICAL representation (angle + 4 pi; -q): the spaces accept such
+        // states everywhere (C10), so the planners must too - steering from it is still one step long,
+        // and the path still begins with exactly those bits
+        if matches!(prop, "C01" | "C02" | "C03" | "C05") {
+            if let Some(start) = noncanonical(&b.alphabet[b.start]) {
+                for pk in Pk::ALL {
+                    for (wn, w) in [("free", b.world_free()), ("subset0001", b.world_named("subset0001", vec![b.obstacles[0].clone()]))] {
+                        if wn == "free" && !(thorough || prop == "C05" || prop == "C02") {
+                            continue;
+                        }
+                        let mut sc = b.scenario(w, b.params(pk, if pk == Pk::Prm { 1.6 } else { 0.6 }, 1.5, 0.0), &format!("{prop}/{kit}/{wn}/{}/non-canonical-start", pk.name()));
+                        sc.start = start.clone();
+                        out.push(sc);
+                    }
                 }
             }
         }
@@ -300,6 +305,23 @@ fn farthest_state<K: Kit>(b: &Base, s: &crate::kit::V) -> crate::kit::V {
 }
 fn marginal_ball_of<K: Kit>(b: &Base, t: &crate::kit::V, toward: &crate::kit::V, r: f64, depth: f64) -> ObstSpec {
     crate::scen::marginal_ball::<K>(&b.spec, t, toward, r, depth)
+}
+
+/// Another representation of the same configuration (None for R^n, where there is none).
+fn noncanonical(v: &crate::kit::V) -> Option<crate::kit::V> {
+    use crate::kit::V;
+    match v {
+        V::Rv(_) => None,
+        V::So2(a) => Some(V::So2(a + 4.0 * PI)),
+        V::So3(q) => Some(V::So3([-q[0], -q[1], -q[2], -q[3]])),
+        V::Cmp(c) => {
+            let alt: Vec<Option<V>> = c.iter().map(noncanonical).collect();
+            if alt.iter().all(|x| x.is_none()) {
+                return None;
+            }
+            Some(V::Cmp(c.iter().zip(alt).map(|(orig, a)| a.unwrap_or_else(|| orig.clone())).collect()))
+        }
+    }
 }
 
 /// A bounded version of the base space together with a start just outside those bounds (None where the
